@@ -30,13 +30,13 @@ PROPS = {
         "engines": [storm()],
         "rule": "each evaluation is one (instruction, bank) pair compared bit-exactly (I80F48 bits): change of bank totals vs sum of changes of all positions in the instruction, plus the closed-world global sum at every commit; about a third of the worlds also carry Kamino / Solend / Drift pass-through banks so that venue deposits / withdrawals and their closures are reconciled too; distinct = (instruction kind, closures, sign of total change, dust abandoned) tuples",
         "assumptions": COMMON_ASSUMPTIONS + ["whole-account close may abandon < 1 share per side (the program's empty threshold); position closure < 0.0001 unit (DESIGN 9 F6)"],
-        "floors": {"quick": {"scen.close_bank_committed": 20, "scen.close_bank_probe_rejected": 200, "C16.liquidations_by_debtor_of_collateral_bank": 4, "scen.wipeout_collateral_fully_seized": 2, "ix_ok/Deposit": 500, "C02.closures/Withdraw": 20, "C02.closures/Repay": 10}},
+        "floors": {"quick": {"scen.close_bank_committed": 20, "scen.slot_saturation_rounds": 10, "scen.close_bank_probe_rejected": 200, "C16.liquidations_by_debtor_of_collateral_bank": 4, "scen.wipeout_collateral_fully_seized": 2, "ix_ok/Deposit": 500, "C02.closures/Withdraw": 20, "C02.closures/Repay": 10}},
     },
     "C03": {
         "engines": [storm()],
         "rule": "each evaluation is one deposit/withdraw/borrow/repay (committed or simulated) whose vault token delta is compared with the exact value delta of the position at the post-accrual share values; distinct = (kind, full/partial, share-value class, decimals, transfer-fee) tuples",
         "assumptions": COMMON_ASSUMPTIONS,
-        "floors": {"quick": {"scen.sunset_owner_repay_all_simulated": 20, "ix_ok/Deposit": 500, "C03.full_withdraw_rounding_checked": 20, "C03.full_repay_rounding_checked": 10}},
+        "floors": {"quick": {"scen.sunset_owner_repay_all_simulated": 20, "C03.liquidation_legs_judged": 200, "scen.liquidations_by_holder_of_a_small_deposit_in_the_debt_bank": 5, "ix_ok/Deposit": 500, "C03.full_withdraw_rounding_checked": 20, "C03.full_repay_rounding_checked": 10}},
     },
     "C06": {
         "engines": [storm()],
@@ -60,31 +60,31 @@ PROPS = {
         "engines": [storm("scen", sq=12, st=12), storm("venue", arg="C04:venue", sq=4, st=4)],
         "rule": "each evaluation is one accepted borrow/withdraw (committed or simulated) or one health rejection, judged against an independent exact-rational initial-health recomputation from raw bytes and the presented oracle accounts; boundaries are located by bisection with state-preserving simulations so both neighbours of the accept/reject boundary are judged; the venue engine does the same in worlds whose collateral sits in Kamino / Solend / Drift pass-through banks (reference price = oracle price x exact venue exchange rate); distinct = (accept/reject, kind, #assets, #liabs, e-mode used, cap active, bad collateral oracle, borderline)",
         "assumptions": COMMON_ASSUMPTIONS + ["a health rejection is only judged when the caller presented the canonical risk accounts (otherwise it is attributable to mis-presented accounts)"],
-        "floors": {"quick": {"scen.staked_collateral_rounds": 20, "pulse.health_signs_compared/initial": 100, "C04.accepted/Borrow": 200, "C04.accepted/Withdraw": 200, "C04.rejected_for_health/Borrow": 200, "scen.withdraw_boundary_found": 20, "C04.accepted/KaminoWithdraw": 100, "C04.accepted/SolendWithdraw": 100, "C04.accepted/DriftWithdraw": 100, "venue.withdraw_boundary_found": 20}},
+        "floors": {"quick": {"scen.staked_collateral_rounds": 20, "scen.reduce_only_probes": 20, "pulse.health_signs_compared/initial": 100, "C04.accepted/Borrow": 200, "C04.accepted/Withdraw": 200, "C04.rejected_for_health/Borrow": 200, "scen.withdraw_boundary_found": 20, "C04.accepted/KaminoWithdraw": 100, "C04.accepted/SolendWithdraw": 100, "C04.accepted/DriftWithdraw": 100, "venue.withdraw_boundary_found": 20}},
     },
     "C05": {
         "engines": [storm("scen", sq=12, st=12), storm("venue", arg="C05:venue", sq=4, st=4)],
         "rule": "each evaluation is one accepted classic liquidation (committed or simulated at the bisected acceptance boundary) judged on pre/post reference maintenance health, flips, liquidator health and the 95/97.5/2.5 percent rule in exact rationals; the collateral price is first bisected to the exact integer price at which the account turns liquidatable; the venue engine liquidates collateral held in pass-through banks; distinct = (debt decimals, collateral decimals, #assets, #liabs, e-mode)",
         "assumptions": COMMON_ASSUMPTIONS,
-        "floors": {"quick": {"scen.flat_liquidation_rounds": 20, "C05.program_health_before_after_pairs": 100, "C05.liquidations_accepted": 100, "scen.liquidation_boundary_found": 5, "scen.liquidatable_price_boundary_found": 20}},
+        "floors": {"quick": {"scen.flat_liquidation_rounds": 20, "scen.emode_liquidator_rounds": 20, "C05.program_health_before_after_pairs": 100, "C05.liquidations_accepted": 100, "scen.liquidation_boundary_found": 5, "scen.liquidatable_price_boundary_found": 20}},
     },
     "C07": {
         "engines": [storm("scen")],
         "rule": "each evaluation is one accepted bankruptcy judged on equity (unweighted, isolated-tier deposits at full value), signer, insurance-first, pro-rata socialisation, kill state, account disabling; distinct = (regime, killed, permissionless, decimals, transfer fee)",
         "assumptions": COMMON_ASSUMPTIONS,
-        "floors": {"quick": {"C07.banks_left_with_worthless_deposits": 5, "scen.wipeout_debt_equal_to_deposits": 5, "pulse.health_signs_compared/equity": 30, "C07.bankruptcies_accepted": 40, "C07.regime/partial": 3, "C07.regime/fully_insured": 3, "scen.bankruptcy_price_boundary_found": 15}},
+        "floors": {"quick": {"C07.banks_left_with_worthless_deposits": 5, "scen.bankrupt_account_moved": 30, "scen.wipeout_debt_equal_to_deposits": 5, "pulse.health_signs_compared/equity": 30, "C07.bankruptcies_accepted": 40, "C07.regime/partial": 3, "C07.regime/fully_insured": 3, "scen.bankruptcy_price_boundary_found": 15}},
     },
     "C10": {
         "engines": [storm("scen")],
         "rule": "each evaluation is one receivership start/end instruction or one committed receivership transaction: reference maintenance health at start/end, seized vs repaid (equity values) against the premium limit located by bisection, transaction shape, surviving markers; distinct = (small account, #assets, #liabs, seized>0, repaid>0) and committed shapes",
         "assumptions": COMMON_ASSUMPTIONS + ["'none via CPI' is applied to start and end (what the program checks); see DESIGN 4 C10"],
-        "floors": {"quick": {"scen.receivership_over_reduce_only_collateral": 30, "C10.brackets_started": 50, "C10.brackets_committed": 5, "scen.receivership_boundary_found": 5, "scen.receivership_price_boundary_found": 8}},
+        "floors": {"quick": {"scen.receivership_over_reduce_only_collateral": 30, "scen.receivership_over_capped_collateral": 30, "C10.directed_short_instruction_shapes": 200, "C10.brackets_started": 50, "C10.brackets_committed": 5, "scen.receivership_boundary_found": 5, "scen.receivership_price_boundary_found": 8}},
     },
     "C11": {
         "engines": [storm()],
         "rule": "each evaluation is one flash-loan start/end instruction, one committed transaction shape containing a start, or one end-time health rejection; distinct = shapes and end-state feature tuples",
         "assumptions": COMMON_ASSUMPTIONS,
-        "floors": {"quick": {"C11.directed_shapes": 200, "C11.start_accepted": 50, "C11.end_accepted": 50, "C11.brackets_committed": 50}},
+        "floors": {"quick": {"C11.directed_shapes": 200, "C11.directed_liquidation_inside_bracket_rejected": 100, "C11.start_accepted": 50, "C11.end_accepted": 50, "C11.brackets_committed": 50}},
     },
     "C09": {
         "engines": [direct("C09"), storm("chain", arg="C09", sq=8, st=8)],
@@ -96,7 +96,7 @@ PROPS = {
         "engines": [direct("C15", sq=4, st=8), storm("pause-chain", sq=4, st=4)],
         "rule": "direct engine, shard 0: breadth-first exploration of the region graph of the real PanicState transition functions (12 time deltas at the 30 min / 24 h boundaries x 3 operations) normalised by time translation; other shards: random walks with arbitrary deltas; every transition is judged online; distinct = normalised states. pause-chain engine (chain rig): the three real pause instructions executed as transactions in long random sequences (fee admin and strangers ordering pauses, admin and permissionless unpauses, propagations, clock steps at the 30 min / 24 h boundaries +-1 s); every accepted instruction is judged on the global pause state before/after (30/60 minute bounds, three per daily window, flags), every rejected unpause against 'never fails while a flag is set / once expired'",
         "assumptions": ["the direct rig mirrors the three pause handlers as calls on PanicState; the handlers themselves are executed by the pause-chain engine and their effect on user instructions by the C14 check"],
-        "floors": {"quick": {"C15.chain_user_instruction_refused_as_paused/Withdraw": 300, "C15.chain_user_probes_accepted": 5000, "C15.bfs_states": 1000, "C15.pause_accepted": 100000, "C15.permissionless_unpause": 10000, "C15.chain_accepted/PanicPause": 1500, "C15.chain_accepted/PanicUnpause": 400, "C15.chain_accepted/PanicUnpausePermissionless": 300}},
+        "floors": {"quick": {"C15.chain_user_instruction_refused_as_paused/Withdraw": 300, "C15.chain_admin_handovers": 300, "C15.chain_user_probes_accepted": 5000, "C15.bfs_states": 1000, "C15.pause_accepted": 100000, "C15.permissionless_unpause": 10000, "C15.chain_accepted/PanicPause": 1500, "C15.chain_accepted/PanicUnpause": 400, "C15.chain_accepted/PanicUnpausePermissionless": 300}},
         "exhaustive_note": "exhaustive over the stated alphabet up to the depth bound reported in notes",
     },
     "C18": {
@@ -115,14 +115,14 @@ PROPS = {
         "engines": [storm("matrix")],
         "rule": "even shards: matrix over twin groups - every listed instruction x every signer identity (authority, stranger, 7 group roles, fee admin, other group's admin, no signature) x every single substitution of a bound account (foreign group twin, sibling bank's vault/authority, clone owned by another program, wrong sysvar / token program, for pass-through banks the venue reserve / obligation / program and the reserve or price account that values the collateral in the risk accounts), plus coherent substitutions (a foreign group's bank presented with all of its own vaults and oracle accounts); a cell counts only when its positive control succeeded; odd shards: attribution monitor over the administrative storm (every change of an account's balances / every role-signed instruction must be attributable to an entitled signer); distinct = (cell kind, instruction, identity or substitution, outcome)",
         "assumptions": COMMON_ASSUMPTIONS + ["the table of entitled signers and bound slots is written from the statement and the instruction doc comments (DESIGN App. A)"],
-        "floors": {"quick": {"impostor.probes_rejected": 5000, "C08.admin_instructions_accepted/AddBank": 100, "C08.admin_instructions_accepted/AddBankWithSeed": 50, "C08.admin_instructions_accepted/CloseBank": 30, "C08.admin_instructions_accepted/StartDeleverage": 30, "admin.bank_creations_rejected": 50, "C08.matrix_foreign_group_with_its_settings_cells": 50, "C08.empty_bracket_committed": 50, "C08.matrix_foreign_group_with_its_role_holder_cells": 1000, "C08.matrix_controls_ok": 300, "C08.matrix_signer_cells": 3000, "C08.matrix_substitution_cells": 1000, "admin.role_rotations": 20, "fidelity.group_configure_requests_compared": 100}},
+        "floors": {"quick": {"impostor.probes_rejected": 5000, "C08.frozen_cells_foreign_group_and_its_admin": 200, "scen.tokenless_stranger_rounds": 5, "C08.admin_instructions_accepted/AddBank": 100, "C08.admin_instructions_accepted/AddBankWithSeed": 50, "C08.admin_instructions_accepted/CloseBank": 30, "C08.admin_instructions_accepted/StartDeleverage": 30, "admin.bank_creations_rejected": 50, "C08.matrix_foreign_group_with_its_settings_cells": 50, "C08.empty_bracket_committed": 50, "C08.matrix_foreign_group_with_its_role_holder_cells": 1000, "C08.matrix_controls_ok": 300, "C08.matrix_signer_cells": 3000, "C08.matrix_substitution_cells": 1000, "admin.role_rotations": 20, "fidelity.group_configure_requests_compared": 100}},
         "exhaustive_note": "exhaustive over the listed cases x identities x substitutions per world",
     },
     "C12": {
         "engines": [storm("admin")],
         "rule": "each evaluation is one bank image changed by a delegated-admin instruction (field-level diff against the role's mask built with offset_of!), one instruction executed on a frozen bank (protected fields and freeze bit), or one deleverage withdrawal (reference daily window); distinct = (instruction, set of changed fields) pairs",
         "assumptions": COMMON_ASSUMPTIONS,
-        "floors": {"quick": {"scen.deleverage_withdraw_all_above_limit_attempts": 10, "scen.first_withdrawal_of_a_new_day_attempts": 5, "scen.two_deleverage_starts_one_end_attempts": 30, "ix_ok/ForceTokenlessRepayComplete": 200, "C12.delegated_instructions/ConfigureBankInterestOnly": 100, "C12.delegated_instructions/ConfigureBankLimitsOnly": 100, "C12.delegated_instructions/ConfigureBankEmode": 100, "C12.delegated_instructions/UpdateEmissionsParameters": 100, "C12.instructions_on_frozen_bank/ConfigureBank": 50, "C12.instructions_on_frozen_bank/PropagateStakedSettings": 10, "C12.deleverage_withdrawals": 5, "scen.whale_deleverage_rejected/6101": 20}},
+        "floors": {"quick": {"scen.deleverage_withdraw_all_above_limit_attempts": 10, "scen.staked_propagate_after_feed_rotation_accepted": 20, "scen.first_withdrawal_of_a_new_day_attempts": 5, "scen.two_deleverage_starts_one_end_attempts": 30, "ix_ok/ForceTokenlessRepayComplete": 200, "C12.delegated_instructions/ConfigureBankInterestOnly": 100, "C12.delegated_instructions/ConfigureBankLimitsOnly": 100, "C12.delegated_instructions/ConfigureBankEmode": 100, "C12.delegated_instructions/UpdateEmissionsParameters": 100, "C12.instructions_on_frozen_bank/ConfigureBank": 50, "C12.instructions_on_frozen_bank/PropagateStakedSettings": 10, "C12.deleverage_withdrawals": 5, "scen.whale_deleverage_rejected/6101": 20}},
     },
     "C13": {
         "engines": [storm("admin")],
@@ -134,7 +134,7 @@ PROPS = {
         "engines": [storm("matrix")],
         "rule": "even shards: matrix financial instruction x bank state {Paused, ReduceOnly, Killed via a real wipe-out} with positive controls, reduce-only valuation cells, and protocol-pause timing cells at start+{0,1,1799,1800,1801} with three propagation orders, committed so that the behavioural oracle (no vault / position movement during the group's pause window) sees them; odd shards: storm; distinct = (cell, state, outcome, error code)",
         "assumptions": COMMON_ASSUMPTIONS + ["'in force for a group' is defined by the pause state recorded in the group's own cache (DESIGN 4 C14)"],
-        "floors": {"quick": {"C14.second_pause_without_intermediate_propagation": 20, "pulse.levels_compared_for_accounts_with_reduce_only_deposits": 50, "pulse.health_signs_compared/maintenance": 100, "C14.matrix_controls_ok": 100, "C14.matrix_state_cells": 200, "C14.pause_window_cells": 300, "C14.after_expiry_cells": 200, "C14.receivership_on_paused_bank_cells": 30, "scen.bank_killed": 2}},
+        "floors": {"quick": {"C14.second_pause_without_intermediate_propagation": 20, "C14.tokenless_settlement_state_cells": 40, "pulse.levels_compared_for_accounts_with_reduce_only_deposits": 50, "pulse.health_signs_compared/maintenance": 100, "C14.matrix_controls_ok": 100, "C14.matrix_state_cells": 200, "C14.pause_window_cells": 300, "C14.after_expiry_cells": 200, "C14.receivership_on_paused_bank_cells": 30, "scen.bank_killed": 2}},
     },
     "C19": {
         "engines": [storm("admin")],
